@@ -320,7 +320,13 @@ class _CallPatchARM64(_CallPatchImpl):
 
         lines.append(f"bl {self._sym.name}")
 
-        if stack_adjustment:
-            lines.append(f"add sp, sp, #{stack_adjustment}")
+        # With callee cleanup the callee has already popped the arguments;
+        # only the alignment padding is left for us to remove.
+        cleanup_size = stack_adjustment
+        if not self._cconv.caller_cleanup:
+            cleanup_size -= len(stack_args) * 8
+
+        if cleanup_size:
+            lines.append(f"add sp, sp, #{cleanup_size}")
 
         return "\n".join(lines)
